@@ -260,6 +260,9 @@ func runCase(n *p2penv.Node, senders []*p2penv.Peer, gen *p2penv.TxGen, cs caseS
 			}
 		}
 		co.ArrivedMs = time.Since(tPub).Milliseconds()
+		for _, u := range missing {
+			co.FromPool += len(u.txs)
+		}
 		if co.ArrivedMs > pendTimeoutMs*6/10 {
 			co.Verdict = "discarded"
 			co.Msg = fmt.Sprintf("arrival took %d ms (> 60%% of the timeout): machine too slow for a before-timeout case", co.ArrivedMs)
